@@ -1850,6 +1850,9 @@ func (x *scanCtx) c19() {
 		if len(terms) == 0 && len(dels) == 0 {
 			continue
 		}
+		if len(terms) > 20 {
+			x.s.stats.Probe("reap batch of more than 20 nodes")
+		}
 		if len(terms) > 0 && terms[0].Known != nil && terms[0].Known.Valid {
 			k := terms[0].Known
 			if int64(len(terms)) > k.Desired-k.Min {
